@@ -452,6 +452,15 @@ impl Handler {
                         .iter()
                         .map(|(k, v)| (k.clone(), v.len()))
                         .collect(),
+                    pending_internal: self
+                        .pending_requests
+                        .values()
+                        .flatten()
+                        .filter_map(|p| match &p.request_id {
+                            HandlerReqId::Internal(id) => Some(id.clone()),
+                            HandlerReqId::External(_) => None,
+                        })
+                        .collect(),
                 };
                 *slot.lock() = Some(snapshot);
             }
